@@ -258,9 +258,10 @@ static unsigned int ares_qcache_calc_minttl(ares_dns_record_t *dnsrec)
       ares_dns_rec_type_t type = ares_dns_rr_get_type(rr);
       unsigned int        ttl  = ares_dns_rr_get_ttl(rr);
 
-      /* TTL is meaningless on these record types */
-      if (type == ARES_REC_TYPE_OPT || type == ARES_REC_TYPE_SOA ||
-          type == ARES_REC_TYPE_SIG) {
+      /* The TTL field does not hold a TTL on these record types.  An SOA does
+       * have one: the record is replayed with the rest of the response and
+       * must not outlive it. */
+      if (type == ARES_REC_TYPE_OPT || type == ARES_REC_TYPE_SIG) {
         continue;
       }
 
